@@ -160,6 +160,17 @@ class Explorer(object):
         return any(isinstance(n, ast.Name) and n.id in self.strict for n in ast.walk(e))
 
     def _binop(self, op, a, b, e):
+        if isinstance(a, Iv) and isinstance(b, Iv) and a.is_const() and b.is_const() and INF not in (abs(a.lo), abs(b.lo)):
+            import operator as _o
+            table = {ast.Add: _o.add, ast.Sub: _o.sub, ast.Mult: _o.mul, ast.RShift: _o.rshift, ast.LShift: _o.lshift,
+                     ast.BitAnd: _o.and_, ast.BitOr: _o.or_, ast.BitXor: _o.xor, ast.FloorDiv: _o.floordiv, ast.Mod: _o.mod}
+            if type(op) in table:
+                try:
+                    if type(op) is ast.LShift and b.lo > 4096:
+                        return TOP
+                    return Iv(table[type(op)](int(a.lo), int(b.lo)))
+                except Exception:
+                    return TOP
         if isinstance(a, Iv) and isinstance(b, Iv):
             if isinstance(op, ast.Add):
                 return Iv(a.lo + b.lo, a.hi + b.hi)
